@@ -25,7 +25,8 @@ def gen_request(ctx, rng, wide=False):
     if rng.random() < 0.8:
         kind = rng.choice(MULS)
         if wide:
-            n, m = rng.choice([(2, 11), (2, 13), (11, 2), (3, 12), (20, 20), (21, 19), (18, 18), (22, 5), (24, 24), (19, 20), (40, 40), (7, 13)])
+            n, m = rng.choice([(2, 11), (2, 13), (11, 2), (3, 12), (20, 20), (21, 19), (18, 18), (22, 5), (24, 24), (19, 20), (40, 40), (7, 13),
+                               (21, 21), (23, 9), (5, 25), (25, 25), (26, 31), (33, 33)])
         else:
             n, m = rng.randint(1, 6), rng.randint(1, 6)
             if rng.random() < 0.15:
@@ -81,7 +82,8 @@ def bare_value_check(ctx, name, n, m, be, rng, samples):
     if total <= 12:
         cases = range(1 << total)
     else:
-        cases = [rng.getrandbits(total) for _ in range(samples)] + [(1 << total) - 1, 0, (1 << n) - 1]
+        dense = [((1 << total) - 1) & ~(1 << rng.randrange(total)) for _ in range(8)]
+        cases = [rng.getrandbits(total) for _ in range(samples)] + [(1 << total) - 1, 0, (1 << n) - 1] + dense
 
     def bits(x, w):
         b = [(x >> i) & 1 == 1 for i in range(w)]
@@ -141,11 +143,18 @@ def search(ctx):
         pairs += [(n, m) for n in range(1, 9) for m in range(1, 9) if (n, m) not in pairs]
         pairs += [(2, 13), (2, 16), (3, 14), (18, 18), (20, 20), (21, 20), (19, 22), (24, 24), (38, 38), (40, 40)]
     else:
-        pairs += [(20, 20), (18, 18)]
+        pairs += [(20, 20), (18, 18), (21, 21), (23, 9), (25, 25), (12, 12)]
     for name in MULS:
         for n, m in pairs:
-            if n >= 18 and name in ('add_mul_alter', 'add_mul_dadda', 'add_mul_wallace', 'add_mul', 'add_mul_pow2_m1') and ctx.tier != 'thorough':
-                continue
+            if ctx.tier != 'thorough' and n >= 18:
+                # quick tier: wide pairs only where a mode changes behaviour (Karatsuba recursion at >= 20 / odd widths,
+                # 31-bit blocks of the 2^k-1 splitter at min(n, m) >= 25)
+                if name in ('add_mul_alter', 'add_mul_dadda', 'add_mul_wallace', 'add_mul'):
+                    continue
+                if name == 'add_mul_pow2_m1' and (n, m) != (25, 25):
+                    continue
+                if name.startswith('add_mul_karatsuba') and (n, m) == (25, 25):
+                    continue
             be = prng.random() < 0.3
             ctx.case(json.dumps(['bare', name, n, m, be]))
             ctx.count('bare:' + name)
